@@ -5,6 +5,7 @@ DEDUCTIVE = [
     ("evaluation", "kneeliverse.evaluation.compute_cost"),
     ("evaluation", "kneeliverse.evaluation.compute_global_cost#shared"),
     ("evaluation", "kneeliverse.evaluation.compute_global_cost#fresh"),
+    ("evaluation", "kneeliverse.evaluation.compute_partial_cost#def"),
 ]
 EXPLANATION = ("compute_cost is proved (mode R) to accumulate the statement's definition: R2 = 1 - RSS/TSS clipped at 0 (TSS of the whole curve, "
                "cached under 'tss'), rmsle/rmspe = sqrt(S/total), rpd/smape = S/total with total = n + #segments - 1, all >= 0. "
@@ -14,7 +15,8 @@ EXPLANATION = ("compute_cost is proved (mode R) to accumulate the statement's de
                "cache consistent and to leave old entries unchanged - so every query sequence sharing one cache returns exactly what fresh "
                "caches return (induction over the sequence with invariant CacheOK, a lemma over this contract). 'All points are "
                "breakpoints', global RMSE and MIP are covered by the bounded layer (exact rationals).")
-ASSUMPTIONS = ["summaries of lf.linear_fit_transform_points and compute_partial_cost: deterministic, >= 0 (uninterpreted); A-REAL for compute_cost"]
+ASSUMPTIONS = ["summary of lf.linear_fit_transform_points: deterministic (uninterpreted); compute_partial_cost is used through a summary (deterministic, >= 0) at call sites, "
+               "and its five per-metric sums and non-negativity are proved against its body (compute_partial_cost#def, mode R); A-REAL for compute_cost"]
 LEVEL_TEXT = ("Proof of the accumulation formula (divisor, clipping, TSS) and of cache transparency as a contract (consistent cache in => same value "
               "as with a fresh cache, consistent cache out, old entries untouched); bounded exact-rational layer for the per-metric values, "
               "query sequences, global RMSE and MIP.")
